@@ -124,6 +124,15 @@ class Model:
             # Which of the two redo does depends on evaluation order, so the observation decides.
             c['maybe'].add(n)
             return 'dep-file-removed'
+        if c is not None and c['obs'] is not None and n in c['obs'] and n not in c['ran'] and self.removed_stamp_in_closure(n, set()) \
+                and not self.settles_to_run(n, c):
+            # Known finding (C02/C03): the hand-removed checksummed target sits further down.  The first process that looks
+            # at it takes it for "maybe changed"; redo then forgets that it was a target (failed_runid = 0), so every later
+            # look in the same run sees "definitely dirty" - also through plain intermediates that are never rebuilt - and a
+            # checksummed target above them is rebuilt although nothing below it ends up changed.
+            c['maybe'].add(n)
+            c['removed_overbuild'].add(n)
+            return 'stamp-file-removed-below'
         return None
 
     def dep_state(self, d, v, ctx, memo):
@@ -196,6 +205,14 @@ class Model:
         if o and self.is_target(o) and self.R[o].failed:
             return True
         return any(self.tainted(d, seen) for d in self.p.curdeps(n))
+
+    def removed_stamp_in_closure(self, n, seen):
+        if n in seen or n not in self.R:
+            return False
+        seen.add(n)
+        if self.removed_stamp_below(n):
+            return True
+        return any(self.removed_stamp_in_closure(d, seen) for d in list(self.R[n].seen) if d in self.R and self.is_target(d))
 
     def removed_stamp_below(self, n):
         for d in list(self.R[n].seen) + list(self.R[n].extra):
@@ -458,7 +475,7 @@ class Model:
 
     def new_ctx(self, keep=False, obs=None):
         return dict(ran=[], done={}, keep=keep, obs=obs, reasons={}, ambiguous=set(), maybe=set(),
-                    notrun_failed=set(), late=set(), stack=[], extra_new={}, why_list=[], rechecked=set(), absorbed=set(), not_started=set(), unsettled_overbuild=set())
+                    notrun_failed=set(), late=set(), stack=[], extra_new={}, why_list=[], rechecked=set(), absorbed=set(), not_started=set(), unsettled_overbuild=set(), removed_overbuild=set())
 
     def rounds_needed(self, n):
         """Pure: how many out-of-band rounds it takes, from the present state, until n can be judged."""
